@@ -91,7 +91,8 @@ def straggler_force(tape):
         before = len(spy.calls)
         if placed and placed2:
             sim.placements[sim.line_points + placed2 - 1] = 0
-        R.record_once(second, run, spy, recorder=recorder)
+        result['first_outcome'] = a.outcome
+        result['second_outcome'] = R.record_once(second, run, spy, recorder=recorder).outcome
         for name, th, tobs, strag in a.svc.threads:
             th.join()
         # (a late discard of the first recording may reach the cassette only now: count the second recording's own calls)
@@ -111,6 +112,13 @@ def straggler_force(tape):
     run.nontrivial = sim.switches > 2
     run.say('first %s then %s: second operation %s, forced flag while idle %s' % (first_params, second_params, result.get('second'), result.get('idle_forced')))
     run.ev('straggler', first_params, second_params, result.get('second'), result.get('idle_forced'))
+    for which in ('first_outcome', 'second_outcome'):
+        oc = result.get(which)
+        if oc is not None and oc.kind != 'return':
+            origin = R.origin_note(oc.exc) if oc.exc is not None else ('?', '?', '')
+            run.violate('outcome_unchanged', 'operation-raised-with-a-late-worker:%s@%s' % (origin[0], origin[1]),
+                        'the %s operation (empty body) raised %r while a worker of the first operation was still inside its %s request' % (
+                            which.split('_')[0], oc.exc, action))
     run.check(not result.get('idle_forced'), 'force_not_sticky', 'sticky-force-after-straggler', 'forced sampling is set on an idle recorder after a worker thread asked for it while its operation ended')
     run.check(not result.get('idle_forced_at_end'), 'force_not_sticky', 'sticky-force-after-straggler', 'forced sampling is set on an idle recorder after the late worker thread finished')
     exp = expected_keep(False, second_params['sampling_rate'], False, second_params['ignore_enforced_sampling'], False, 0.9)
